@@ -56,6 +56,8 @@ NoRev   == [has |-> FALSE, ep |-> 0]
 VARIABLES
   cf,       \* channel options returned by the resolver for this channel (fixed per behaviour)
   chEx,     \* channel object exists in mapHub.channels
+  chOrd,    \* channel.ordered: taken from the options when add() creates the channel, FALSE when a read creates it
+            \* (createStreamPosition), upgraded by the next add() of an ordered channel
   st,       \* channel.state: key -> [off, id, sc, exp, ver, vep, seq]   (exp 0 = no deadline; seq orders equal deadlines)
   top,      \* channel.stream.top
   win,      \* retained stream window: sequence of [off, key, rm, id]
@@ -64,6 +66,10 @@ VARIABLES
   expAt, expQ,   \* mapHub.expires[ch] (0 = absent) and the priority of its live queue item (stream TTL)
   remAt, remQ,   \* mapHub.removes[ch] and its queue item (meta TTL)
   idem,     \* resultCache[ch]: idempotency key -> [off, ep, exp]
+  iq,       \* resultExpireQueue: items [k, at] pushed by every save; items of older saves of a key (or from before a
+            \* Clear) stay queued and are "stale" -- the cleaner must re-check the CURRENT entry when it pops one
+  gidem,    \* ghost (reference): the last result saved per idempotency key since the last Clear, never swept
+  nkc,      \* mapHub.nextKeyExpireCheck: the earliest key deadline the key sweeper knows of (0 = idle: the sweeper returns at once)
   pend,     \* expiredEvents of a sweep that finished phase 1: sequence of [key, exp]
   now,
   npub,     \* payload identities handed out (1..npub)
@@ -71,7 +77,7 @@ VARIABLES
   bc,       \* what the last step handed to the BrokerEventHandler: sequence of [off, key, rm, id]
   step      \* last operation: arguments, result, reference answers
 
-core == <<cf, chEx, st, top, win, ep, epc, expAt, expQ, remAt, remQ, idem, pend, now>>
+core == <<cf, chEx, chOrd, st, top, win, ep, epc, expAt, expQ, remAt, remQ, idem, iq, gidem, nkc, pend, now>>
 vars == <<core, npub, nops, bc, step>>
 
 HasStream == cf.mode \in {"rec", "per"}
@@ -189,10 +195,10 @@ Walk(s, ord, cur, limit, asc, fuel) ==
           IN [keys |-> r.keys \o w.keys, done |-> w.done, pages |-> w.pages + 1]
 
 \* C21 for one state s
-PaginationOKFor(s, ord) ==
+PaginationOKFor(s, ordImpl, ord) ==       \* ordImpl: the flag the code sorts by; ord: the channel's configured order
   \A limit \in PageSizes, asc \in BOOLEAN :
     LET n == Cardinality(DOMAIN s)
-        w == Walk(s, ord, NoCur, limit, asc, n)
+        w == Walk(s, ordImpl, NoCur, limit, asc, n)
     IN /\ w.done                                         \* progress: terminates within |keys| pages
        /\ w.keys = SortedKeys(s, ord, asc)               \* every key exactly once, in sort order
        /\ w.pages <= (IF n = 0 THEN 1 ELSE n)
@@ -202,9 +208,9 @@ Pub(s, k) == [key |-> k, off |-> s[k].off, id |-> s[k].id, sc |-> s[k].sc]
 ---------------------------------------------------------------------------
 Init ==
   /\ cf \in Configs
-  /\ chEx = FALSE /\ st = Empty /\ top = 0 /\ win = <<>> /\ ep = 0 /\ epc = 0
+  /\ chEx = FALSE /\ chOrd = FALSE /\ st = Empty /\ top = 0 /\ win = <<>> /\ ep = 0 /\ epc = 0
   /\ expAt = 0 /\ expQ = 0 /\ remAt = 0 /\ remQ = 0
-  /\ idem = Empty /\ pend = <<>>
+  /\ idem = Empty /\ iq = {} /\ gidem = Empty /\ nkc = 0 /\ pend = <<>>
   /\ now = 0 /\ npub = 0 /\ nops = 0 /\ bc = <<>>
   /\ step = [act |-> "Init"]
 
@@ -233,6 +239,9 @@ Settled ==
 KeyFree(q) == Deterministic => (KeyQ = 0 \/ KeyQ >= q + 2)
 OthersFree(q) == Deterministic => ((expQ = 0 \/ expQ >= q + 2) /\ (remQ = 0 \/ remQ >= q + 2))
 
+\* "if h.nextKeyExpireCheck == 0 || h.nextKeyExpireCheck > expireAt { h.nextKeyExpireCheck = expireAt }"
+Arm(d) == IF nkc = 0 \/ nkc > d THEN d ELSE nkc
+
 MetaTouch == IF cf.mttl > 0
                THEN remAt' = now + cf.mttl /\ remQ' = TouchQ(remAt, remQ, now + cf.mttl)
                ELSE UNCHANGED <<remAt, remQ>>
@@ -245,7 +254,7 @@ SweepExpire ==      \* expireStreams: stream TTL
        THEN /\ expAt' = 0 /\ expQ' = 0
             /\ win' = IF chEx THEN <<>> ELSE win           \* stream.Clear(): top and epoch stay
        ELSE /\ expQ' = expAt /\ UNCHANGED <<expAt, win>>    \* deadline was extended: re-queue
-  /\ UNCHANGED <<cf, chEx, st, top, ep, epc, remAt, remQ, idem, pend, now, npub, nops>>
+  /\ UNCHANGED <<cf, chEx, chOrd, st, top, ep, epc, remAt, remQ, idem, iq, gidem, nkc, pend, now, npub, nops>>
   /\ bc' = <<>>
   /\ step' = [act |-> "SweepExpire"]
 
@@ -254,30 +263,36 @@ SweepRemove ==      \* removeChannels: meta TTL; the channel object goes, state 
   /\ IF Deterministic THEN RemMust /\ KeyFree(remQ) ELSE RemDue
   /\ IF remAt <= remQ
        THEN /\ remAt' = 0 /\ remQ' = 0
-            /\ chEx' = FALSE /\ st' = Empty /\ top' = 0 /\ win' = <<>> /\ ep' = 0
-       ELSE /\ remQ' = remAt /\ UNCHANGED <<remAt, chEx, st, top, win, ep>>
-  /\ UNCHANGED <<cf, epc, expAt, expQ, idem, pend, now, npub, nops>>
+            /\ chEx' = FALSE /\ chOrd' = FALSE /\ st' = Empty /\ top' = 0 /\ win' = <<>> /\ ep' = 0
+       ELSE /\ remQ' = remAt /\ UNCHANGED <<remAt, chEx, chOrd, st, top, win, ep>>
+  /\ UNCHANGED <<cf, epc, expAt, expQ, idem, iq, gidem, nkc, pend, now, npub, nops>>
   /\ bc' = <<>>
   /\ step' = [act |-> "SweepRemove"]
 
-(* expireKeysIteration phase 1 (under the hub lock): collect candidates, mutate nothing.
-   keyExpireQueue / keyExpires / nextKeyExpireCheck are bookkeeping for "the keys whose
-   stored deadline has passed": stale queue items are skipped or re-queued at pop time.  The
-   candidates come out of the heap by deadline; equal model deadlines are ordered by the moment
-   they were set (the real deadlines differ by milliseconds). *)
+(* expireKeysIteration phase 1 (one critical section under the hub lock): return at once when the sweeper is idle or its
+   next check lies in the future (nextKeyExpireCheck); otherwise drain the queue -- collect the candidates, mutate no state --
+   and STORE the next check: the first deadline left in the queue, 0 if the queue is empty.  keyExpireQueue / keyExpires are
+   bookkeeping for "the keys whose stored deadline has passed": stale queue items are skipped or re-queued at pop time (a
+   stale item can only make the real next check EARLIER than the model's).  The candidates come out of the heap by deadline;
+   equal model deadlines are ordered by the moment they were set (the real deadlines differ by milliseconds).
+   Writers running between this store and the end of phase 2 lower nextKeyExpireCheck for the deadlines they register (Arm);
+   nothing may overwrite that afterwards -- SweeperArmed. *)
 Candidates(bound) == {k \in DOMAIN st : st[k].exp # 0 /\ st[k].exp <= bound}
 ExpirePhase1 ==
   /\ pend = <<>>
   /\ LET bound == IF Deterministic /\ ~Manual THEN now - 1 ELSE now
-         c == Candidates(bound)
+         armed == nkc # 0 /\ nkc <= now
+         c == IF armed THEN Candidates(bound) ELSE {}
+         rest == {st[k].exp : k \in {x \in DOMAIN st : st[x].exp # 0 /\ x \notin c}}
      IN /\ Manual \/ c # {}
+        /\ nkc' = IF ~armed THEN nkc ELSE IF rest = {} THEN 0 ELSE MinOf(rest)
         /\ IF Manual THEN nops < MaxOps /\ nops' = nops + 1 ELSE nops' = nops
         /\ (Deterministic /\ ~Manual) => (KeyMust /\ OthersFree(KeyQ))
         /\ pend' = [i \in 1..Cardinality(c) |->
                       LET k == SortSeq(SetToSeq(c), LAMBDA x, y :
                                    st[x].exp < st[y].exp \/ (st[x].exp = st[y].exp /\ st[x].seq < st[y].seq))[i]
                       IN [key |-> k, exp |-> st[k].exp, seq |-> st[k].seq]]
-  /\ UNCHANGED <<cf, chEx, st, top, win, ep, epc, expAt, expQ, remAt, remQ, idem, now, npub>>
+  /\ UNCHANGED <<cf, chEx, chOrd, st, top, win, ep, epc, expAt, expQ, remAt, remQ, idem, iq, gidem, now, npub>>
   /\ bc' = <<>>
   /\ step' = [act |-> "ExpirePhase1", n |-> Len(pend')]
 
@@ -298,15 +313,31 @@ ExpirePhase2 ==
                        ELSE /\ UNCHANGED <<top, win>>
                             /\ bc' = <<[off |-> top, key |-> k, rm |-> TRUE, id |-> 0]>>
              ELSE /\ UNCHANGED <<st, top, win>> /\ bc' = <<>>
+        /\ \* "entry was refreshed between Phase 1 and Phase 2 -- re-queue" (and re-arm)
+           nkc' = IF ~hit /\ chEx /\ k \in DOMAIN st /\ st[k].exp > now THEN Arm(st[k].exp) ELSE nkc
         /\ step' = [act |-> "ExpirePhase2", key |-> k, removed |-> hit]
-  /\ UNCHANGED <<cf, chEx, ep, epc, expAt, expQ, remAt, remQ, idem, now, npub, nops>>
+  /\ UNCHANGED <<cf, chEx, chOrd, ep, epc, expAt, expQ, remAt, remQ, idem, iq, gidem, now, npub, nops>>
+
+(* expireResultCache: the once-a-second cleaner of the idempotency results.  It pops every queue item whose time has
+   come and deletes the key's entry only if the CURRENT entry is expired too (the item may stem from an older save).
+   Lookups check the deadline themselves, so the cleaner has no observable effect -- as long as it re-checks. *)
+IdemDue == ~Manual /\ \E i \in iq : i.at <= now
+SweepIdem ==
+  /\ IdemDue
+  /\ LET popped == {i \in iq : i.at <= now}
+         dead   == {k \in DOMAIN idem : idem[k].exp <= now /\ \E i \in popped : i.k = k}
+     IN /\ iq' = iq \ popped
+        /\ idem' = [k \in (DOMAIN idem) \ dead |-> idem[k]]
+  /\ UNCHANGED <<cf, chEx, chOrd, st, top, win, ep, epc, expAt, expQ, remAt, remQ, gidem, nkc, pend, now, npub, nops>>
+  /\ bc' = <<>>
+  /\ step' = [act |-> "SweepIdem"]
 
 Tick ==
   /\ now < MaxNow
   /\ pend = <<>>
   /\ ~ExpMust /\ ~RemMust /\ ~KeyMust
   /\ now' = now + 1
-  /\ UNCHANGED <<cf, chEx, st, top, win, ep, epc, expAt, expQ, remAt, remQ, idem, pend, npub, nops>>
+  /\ UNCHANGED <<cf, chEx, chOrd, st, top, win, ep, epc, expAt, expQ, remAt, remQ, idem, iq, gidem, nkc, pend, npub, nops>>
   /\ bc' = <<>>
   /\ step' = [act |-> "Tick", now |-> now + 1]
 
@@ -330,9 +361,10 @@ Publish(k, km, cas, v, ve, ik, ittl, sc) ==
          e1   == IF chEx THEN ep ELSE epc + 1            \* add() creates the channel before any check
          would == [v |-> WouldVersion(k, v, ve), k |-> WouldKeyMode(k, km), c |-> WouldCas(k, cas, e1)]
          Create == /\ chEx' = TRUE /\ ep' = e1 /\ epc' = IF chEx THEN epc ELSE epc + 1
+                   /\ chOrd' = IF chEx THEN (chOrd \/ cf.ord) ELSE cf.ord   \* before any check, suppressed or not
          Suppressed(reason, cur) ==
            /\ Create
-           /\ UNCHANGED <<top, win, expAt, expQ, idem, pend, now>>
+           /\ UNCHANGED <<top, win, expAt, expQ, idem, iq, gidem, pend, now>>
            /\ bc' = <<>>
            /\ step' = [act |-> "Publish", args |-> args, would |-> would,
                        res |-> [err |-> FALSE, sup |-> reason, off |-> top, ep |-> e1, cur |-> cur]]
@@ -350,20 +382,21 @@ Publish(k, km, cas, v, ve, ik, ittl, sc) ==
      ELSE /\ cf' = cf
           /\ \* canonical check order: Version -> KeyMode -> CAS
              IF WouldVersion(k, v, ve)
-               THEN Suppressed("version", <<>>) /\ UNCHANGED <<st, remAt, remQ>>
+               THEN Suppressed("version", <<>>) /\ UNCHANGED <<st, remAt, remQ, nkc>>
              ELSE IF km \in {"if_new", "if_new_refresh"} /\ k \in DOMAIN st
                THEN /\ Suppressed("key_exists", <<>>)
                     /\ IF km = "if_new_refresh" /\ cf.kttl > 0
                          THEN \* RefreshTTLOnSuppress: the key's deadline and the meta TTL are extended
                               /\ st' = Put(st, k, [st[k] EXCEPT !.exp = now + cf.kttl, !.seq = nops + 1])
                               /\ MetaTouch
-                         ELSE UNCHANGED <<st, remAt, remQ>>
+                              /\ nkc' = Arm(now + cf.kttl)
+                         ELSE UNCHANGED <<st, remAt, remQ, nkc>>
              ELSE IF km = "if_exists" /\ k \notin DOMAIN st
-               THEN Suppressed("key_not_found", <<>>) /\ UNCHANGED <<st, remAt, remQ>>
+               THEN Suppressed("key_not_found", <<>>) /\ UNCHANGED <<st, remAt, remQ, nkc>>
              ELSE IF cas.has /\ k \notin DOMAIN st
-               THEN Suppressed("position_mismatch", <<>>) /\ UNCHANGED <<st, remAt, remQ>>
+               THEN Suppressed("position_mismatch", <<>>) /\ UNCHANGED <<st, remAt, remQ, nkc>>
              ELSE IF cas.has /\ (st[k].off # cas.off \/ e1 # cas.ep)
-               THEN Suppressed("position_mismatch", <<[off |-> st[k].off, id |-> st[k].id]>>) /\ UNCHANGED <<st, remAt, remQ>>
+               THEN Suppressed("position_mismatch", <<[off |-> st[k].off, id |-> st[k].id]>>) /\ UNCHANGED <<st, remAt, remQ, nkc>>
              ELSE \* applied
                LET off1 == IF HasStream THEN top + 1 ELSE top
                    old  == IF k \in DOMAIN st THEN st[k] ELSE [ver |-> 0, vep |-> ve]
@@ -381,7 +414,10 @@ Publish(k, km, cas, v, ve, ik, ittl, sc) ==
                             /\ win' = Trim(Append(win, pubv), cf.size)
                        ELSE UNCHANGED <<expAt, expQ, remAt, remQ, top, win>>
                   /\ st' = Put(st, k, ent)
+                  /\ nkc' = IF cf.kttl > 0 THEN Arm(now + cf.kttl) ELSE nkc
                   /\ idem' = IF ik = "" THEN idem ELSE Put(idem, ik, [off |-> off1, ep |-> e1, exp |-> now + ittl])
+                  /\ iq' = IF ik = "" THEN iq ELSE iq \cup {[k |-> ik, at |-> now + ittl]}
+                  /\ gidem' = IF ik = "" THEN gidem ELSE Put(gidem, ik, [off |-> off1, ep |-> e1, exp |-> now + ittl])
                   /\ UNCHANGED <<pend, now>>
                   /\ bc' = <<pubv>>
                   /\ step' = [act |-> "Publish", args |-> args, would |-> would,
@@ -391,16 +427,16 @@ Publish(k, km, cas, v, ve, ik, ittl, sc) ==
 RemoveKey(k, cas, ik, ittl) ==
   /\ Settled /\ nops < MaxOps
   /\ nops' = nops + 1
-  /\ UNCHANGED <<cf, npub, pend, now, epc>>
+  /\ UNCHANGED <<cf, npub, nkc, pend, now, epc>>
   /\ LET args == [key |-> k, cas |-> cas, ik |-> ik, ittl |-> ittl]
          Suppressed(reason, o, e, cur) ==
-           /\ UNCHANGED <<chEx, st, top, win, ep, expAt, expQ, remAt, remQ, idem>>
+           /\ UNCHANGED <<chEx, chOrd, st, top, win, ep, expAt, expQ, remAt, remQ, idem, iq, gidem>>
            /\ bc' = <<>>
            /\ step' = [act |-> "Remove", args |-> args,
                        res |-> [err |-> FALSE, sup |-> reason, off |-> o, ep |-> e, cur |-> cur]]
      IN
      IF IsEph /\ cas.has
-       THEN /\ UNCHANGED <<chEx, st, top, win, ep, expAt, expQ, remAt, remQ, idem>> /\ bc' = <<>>
+       THEN /\ UNCHANGED <<chEx, chOrd, st, top, win, ep, expAt, expQ, remAt, remQ, idem, iq, gidem>> /\ bc' = <<>>
             /\ step' = [act |-> "Remove", args |-> args,
                         res |-> [err |-> TRUE, sup |-> "", off |-> 0, ep |-> 0, cur |-> <<>>]]
      ELSE IF IdemHit(ik) THEN Suppressed("idempotency", idem[ik].off, idem[ik].ep, <<>>)
@@ -412,7 +448,7 @@ RemoveKey(k, cas, ik, ittl) ==
      ELSE LET off1 == IF HasStream THEN top + 1 ELSE top
               pubv == [off |-> off1, key |-> k, rm |-> TRUE, id |-> 0]
           IN /\ st' = Del(st, k)
-             /\ UNCHANGED <<chEx, ep>>
+             /\ UNCHANGED <<chEx, chOrd, ep>>
              /\ IF HasStream
                   THEN /\ expAt' = now + cf.sttl /\ expQ' = TouchQ(expAt, expQ, now + cf.sttl)
                        /\ MetaTouch
@@ -420,6 +456,8 @@ RemoveKey(k, cas, ik, ittl) ==
                        /\ win' = Trim(Append(win, pubv), cf.size)
                   ELSE UNCHANGED <<expAt, expQ, remAt, remQ, top, win>>
              /\ idem' = IF ik = "" THEN idem ELSE Put(idem, ik, [off |-> off1, ep |-> ep, exp |-> now + ittl])
+             /\ iq' = IF ik = "" THEN iq ELSE iq \cup {[k |-> ik, at |-> now + ittl]}
+             /\ gidem' = IF ik = "" THEN gidem ELSE Put(gidem, ik, [off |-> off1, ep |-> ep, exp |-> now + ittl])
              /\ bc' = <<pubv>>
              /\ step' = [act |-> "Remove", args |-> args,
                          res |-> [err |-> FALSE, sup |-> "", off |-> off1, ep |-> ep, cur |-> <<>>]]
@@ -428,10 +466,10 @@ RemoveKey(k, cas, ik, ittl) ==
 Clear ==
   /\ Settled /\ nops < MaxOps
   /\ nops' = nops + 1
-  /\ chEx' = FALSE /\ st' = Empty /\ top' = 0 /\ win' = <<>> /\ ep' = 0
+  /\ chEx' = FALSE /\ chOrd' = FALSE /\ st' = Empty /\ top' = 0 /\ win' = <<>> /\ ep' = 0
   /\ expAt' = 0 /\ expQ' = 0 /\ remAt' = 0 /\ remQ' = 0
-  /\ idem' = Empty
-  /\ UNCHANGED <<cf, epc, pend, now, npub>>
+  /\ idem' = Empty /\ gidem' = Empty
+  /\ UNCHANGED <<cf, epc, iq, nkc, pend, now, npub>>               \* the queue items stay (stale)
   /\ bc' = <<>>
   /\ step' = [act |-> "Clear"]
 
@@ -440,16 +478,16 @@ ReadState(cur, limit, asc, key, rev) ==
   /\ Settled /\ nops < MaxOps
   /\ nops' = nops + 1
   /\ MetaTouch                                   \* updateMetaTTL runs first, channel or not
-  /\ UNCHANGED <<cf, st, top, win, expAt, expQ, idem, pend, now, npub>>
+  /\ UNCHANGED <<cf, st, top, win, expAt, expQ, idem, iq, gidem, nkc, pend, now, npub>>
   /\ bc' = <<>>
   /\ LET args == [cur |-> cur, limit |-> limit, asc |-> asc, key |-> key, rev |-> rev] IN
      IF ~chEx
        THEN \* createStreamPosition: an empty channel with a fresh epoch
-            /\ chEx' = TRUE /\ ep' = epc + 1 /\ epc' = epc + 1
+            /\ chEx' = TRUE /\ chOrd' = FALSE /\ ep' = epc + 1 /\ epc' = epc + 1
             /\ step' = [act |-> "ReadState", args |-> args,
                         res |-> [err |-> rev.has /\ rev.ep # 0, pubs |-> <<>>, off |-> 0, ep |-> epc + 1, next |-> NoCur],
                         ref |-> <<>>, single |-> <<>>]
-       ELSE /\ UNCHANGED <<chEx, ep, epc>>
+       ELSE /\ UNCHANGED <<chEx, chOrd, ep, epc>>
             /\ IF rev.has /\ rev.ep # ep
                  THEN step' = [act |-> "ReadState", args |-> args,
                                res |-> [err |-> TRUE, pubs |-> <<>>, off |-> top, ep |-> ep, next |-> NoCur],
@@ -463,26 +501,26 @@ ReadState(cur, limit, asc, key, rev) ==
                  THEN step' = [act |-> "ReadState", args |-> args,
                                res |-> [err |-> FALSE, pubs |-> <<>>, off |-> top, ep |-> ep, next |-> NoCur],
                                ref |-> <<>>, single |-> <<>>]
-               ELSE LET p == PageImpl(st, cf.ord, cur, limit, asc)
+               ELSE LET p == PageImpl(st, chOrd, cur, limit, asc)      \* the code sorts by channel.ordered ...
                     IN step' = [act |-> "ReadState", args |-> args,
                                 res |-> [err |-> FALSE, pubs |-> [i \in 1..Len(p.keys) |-> Pub(st, p.keys[i])],
                                          off |-> top, ep |-> ep, next |-> p.next],
-                                ref |-> RefPage(st, cf.ord, cur, limit, asc), single |-> <<>>]
+                                ref |-> RefPage(st, cf.ord, cur, limit, asc), single |-> <<>>]   \* ... the reference by the channel's options
 
 (* ---- ReadStream ---- *)
 ReadStream(since, limit, reverse) ==
   /\ Settled /\ nops < MaxOps
   /\ nops' = nops + 1
   /\ MetaTouch
-  /\ UNCHANGED <<cf, st, top, win, expAt, expQ, idem, pend, now, npub>>
+  /\ UNCHANGED <<cf, st, top, win, expAt, expQ, idem, iq, gidem, nkc, pend, now, npub>>
   /\ bc' = <<>>
   /\ LET args == [since |-> since, limit |-> limit, reverse |-> reverse] IN
      IF ~chEx
-       THEN /\ chEx' = TRUE /\ ep' = epc + 1 /\ epc' = epc + 1
+       THEN /\ chEx' = TRUE /\ chOrd' = FALSE /\ ep' = epc + 1 /\ epc' = epc + 1
             /\ step' = [act |-> "ReadStream", args |-> args,
                         res |-> [err |-> FALSE, pubs |-> <<>>, off |-> 0, ep |-> epc + 1],
                         ref |-> <<>>, refdef |-> TRUE]
-       ELSE /\ UNCHANGED <<chEx, ep, epc>>
+       ELSE /\ UNCHANGED <<chEx, chOrd, ep, epc>>
             /\ IF since.has /\ since.ep # 0 /\ since.ep # ep
                  THEN step' = [act |-> "ReadStream", args |-> args,
                                res |-> [err |-> TRUE, pubs |-> <<>>, off |-> 0, ep |-> 0],
@@ -521,7 +559,7 @@ ReadStateAny ==
 ReadStreamAny ==
   CanOp /\ \E since \in Sinces, limit \in Limits, reverse \in BOOLEAN : ReadStream(since, limit, reverse)
 
-Sweeps == (~Manual /\ (SweepExpire \/ SweepRemove)) \/ ExpirePhase1 \/ ExpirePhase2
+Sweeps == (~Manual /\ (SweepExpire \/ SweepRemove \/ SweepIdem)) \/ ExpirePhase1 \/ ExpirePhase2
 
 Next == Tick \/ Sweeps \/ PublishAny \/ RemoveAny \/ Clear \/ ReadStateAny \/ ReadStreamAny
 
@@ -532,7 +570,7 @@ Spec == Init /\ [][Next]_vars
 TypeOK ==
   /\ top >= 0 /\ Len(win) <= top
   /\ \A i \in 1..Len(win) : win[i].off = top - Len(win) + i     \* the window is the dense suffix ending at top
-  /\ ~chEx => (st = Empty /\ top = 0 /\ win = <<>> /\ ep = 0)
+  /\ ~chEx => (st = Empty /\ top = 0 /\ win = <<>> /\ ep = 0 /\ ~chOrd)
   /\ ~HasStream => (top = 0 /\ win = <<>>)
   /\ DOMAIN st \subseteq Keys
   /\ \A k \in DOMAIN st : (st[k].exp # 0) = (cf.kttl > 0)
@@ -622,7 +660,10 @@ ReadStateIsRefPage ==
      [i \in 1..Len(step.res.pubs) |-> step.res.pubs[i].key] = step.ref
 
 (* ---- C21 ---- *)
-PaginationEnumerates == PaginationOKFor(st, cf.ord)
+PaginationEnumerates == PaginationOKFor(st, chOrd, cf.ord)
+\* the channel sorts the way its options say as soon as it holds a key, however the channel object came to exist
+\* (created by the first publish, or by a ReadState / ReadStream that came before it, or re-created after Clear / expiry)
+OrderedFlagFollowsOptions == (DOMAIN st # {}) => (chOrd = cf.ord)
 \* single-key reads return exactly the stored entry
 SingleKeyExact == [][
   (step'.act = "ReadState" /\ ~step'.res.err /\ step'.args.key # "" /\ chEx) =>
@@ -666,6 +707,12 @@ NeverLostNeverTwice == [][
         \/ /\ step'.act \in {"Remove", "ExpirePhase2"}
            /\ Len(bc') = 1 /\ bc'[1].rm /\ bc'[1].key = k
   /\ \A i \in 1..Len(bc') : bc'[i].rm => (bc'[i].key \in DOMAIN st /\ bc'[i].key \notin DOMAIN st') ]_vars
+\* no live deadline is forgotten: the sweeper's next check is never later than a deadline of a key in the state (keys
+\* collected by the running sweep are in its candidate list) -- so every key whose TTL elapses is reached by a sweeper tick
+SweeperArmed ==
+  \A k \in DOMAIN st : st[k].exp # 0 =>
+     \/ nkc # 0 /\ nkc <= st[k].exp
+     \/ \E i \in 1..Len(pend) : pend[i].key = k /\ pend[i].exp = st[k].exp /\ pend[i].seq = st[k].seq
 \* a passed deadline is acted upon: by the time the sweeper must have run, no overdue key is left
 \* (modelling of the sweeper's period; the harness checks the same on the real broker with slack)
 OverdueKeysGone ==
@@ -688,6 +735,18 @@ IdemReturnsOriginal == [][
   (IsWrite /\ step'.res.sup = "idempotency") =>
      /\ step'.args.ik \in DOMAIN idem /\ now < idem[step'.args.ik].exp
      /\ step'.res.off = idem[step'.args.ik].off /\ step'.res.ep = idem[step'.args.ik].ep ]_vars
+\* suppressed by idempotency exactly while the last result saved under the key (since the last Clear) is inside its TTL,
+\* and then with that result's position -- judged against the ghost, which no cleaner touches
+GhostHit(ik) == ik # "" /\ ik \in DOMAIN gidem /\ gidem[ik].exp > now
+IdemExact == [][
+  (IsWrite /\ ~step'.res.err) =>
+     /\ (step'.res.sup = "idempotency") <=> GhostHit(step'.args.ik)
+     /\ (step'.res.sup = "idempotency") =>
+           (step'.res.off = gidem[step'.args.ik].off /\ step'.res.ep = gidem[step'.args.ik].ep) ]_vars
+\* the cleaner never removes a result that is still inside its TTL (stale queue items are re-checked)
+IdemSweepKeepsValid == [][
+  step'.act = "SweepIdem" =>
+     \A k \in DOMAIN idem : idem[k].exp > now => (k \in DOMAIN idem' /\ idem'[k] = idem[k]) ]_vars
 IdemSavedOnApply == [][
   (Applied /\ step'.args.ik # "") =>
      idem'[step'.args.ik] = [off |-> step'.res.off, ep |-> step'.res.ep, exp |-> now + step'.args.ittl] ]_vars
@@ -704,6 +763,7 @@ ConfigsChecks == {Cfg("rec", FALSE, 1, 2, 2, 3), Cfg("per", TRUE, 0, 1, 1, 0)}
 ConfigsTime   == {Cfg("rec", FALSE, 1, 2, 2, 3), Cfg("rec", TRUE, 2, 1, 1, 2), Cfg("eph", FALSE, 1, 0, 0, 0)}
 ConfigsTimeQ  == {Cfg("rec", FALSE, 1, 2, 2, 3), Cfg("eph", FALSE, 1, 0, 0, 0)}
 ConfigsRace   == {Cfg("rec", FALSE, 1, 2, 3, 3), Cfg("rec", TRUE, 1, 1, 1, 1), Cfg("eph", FALSE, 1, 0, 0, 0)}
+ConfigsIdemT  == {Cfg("rec", FALSE, 1, 2, 2, 3), Cfg("eph", FALSE, 1, 0, 0, 0)}
 ConfigsAll    == ConfigsRec \cup ConfigsRecOrd \cup ConfigsPer \cup ConfigsEph
 ConfigsSim    == {Cfg("rec", FALSE, 1, 2, 3, 5), Cfg("rec", TRUE, 3, 3, 1, 5), Cfg("rec", FALSE, 2, 1, 4, 6),
                   Cfg("rec", TRUE, 1, 3, 6, 6), Cfg("rec", FALSE, 2, 2, 2, 4),
@@ -711,10 +771,12 @@ ConfigsSim    == {Cfg("rec", FALSE, 1, 2, 3, 5), Cfg("rec", TRUE, 3, 3, 1, 5), C
                   Cfg("eph", FALSE, 1, 0, 0, 0), Cfg("eph", TRUE, 2, 0, 0, 0)}
 ConfigsManual == {Cfg("rec", FALSE, 1, 3, 50, 50), Cfg("rec", TRUE, 2, 2, 50, 50), Cfg("rec", FALSE, 2, 3, 50, 50),
                   Cfg("eph", FALSE, 1, 0, 0, 0), Cfg("eph", TRUE, 2, 0, 0, 0)}
+KeySeq1 == <<"a">>
 KeySeq2 == <<"a", "b">>
 KeySeq3 == <<"a", "b", "c">>
 KeySeq4 == <<"a", "b", "c", "d">>
 SlackOne == 1
+TrueDef == TRUE
 ScoresSim == {-1, 0, 1}
 ScoresPages == {-2, -1, 0, 1, 2}     \* the harness maps -2 / 2 to math.MinInt64 / math.MaxInt64
 ScoresPagesQuick == {-2, 0, 2}
